@@ -304,7 +304,7 @@ class DictDecoder:
             return dict(value)
 
         # Repeating element, recursively bind the values
-        if not recursive and var.list_element and isinstance(value, list):
+        if not recursive and var.list_element and isinstance(value, (list, tuple)):
             assert var.factory is not None
             return var.factory(
                 self.bind_value(meta, var, val, recursive=True) for val in value
@@ -363,6 +363,10 @@ class DictDecoder:
                 f"Failed to bind '{value}' "
                 f"to {meta.clazz.__qualname__}.{var.name} field"
             )
+
+        if isinstance(value, tuple):
+            # The dictionary of an immutable model keeps its token tuples
+            value = list(value)
 
         value = converter.serialize(value)
 
